@@ -35,6 +35,8 @@ type StackOpts struct {
 	Build     func(ctx context.Context, h http.Handler, tc *tls.Config) *proxyserver.Server
 	Configure func(*proxyserver.Server)
 	NoServe   bool // do not start Serve (caller does)
+	// BaseCtx, if set, is the parent of the server's context (a library caller's own context, which may carry values)
+	BaseCtx context.Context
 }
 
 // Stack is proxyserver.Server + reverseproxy handler + recording backend on an in-memory listener.
@@ -107,7 +109,11 @@ func NewStack(o StackOpts) *Stack {
 	if tc == nil {
 		tc = DefaultTLS()
 	}
-	s.Ctx, s.Cancel = context.WithCancel(context.Background())
+	base := o.BaseCtx
+	if base == nil {
+		base = context.Background()
+	}
+	s.Ctx, s.Cancel = context.WithCancel(base)
 	if o.Build != nil {
 		s.Server = o.Build(s.Ctx, s.Handler, tc)
 	} else {
